@@ -90,6 +90,27 @@ def gen():
                         % (vt(k1, "A"), vt(k2, c2), vt(k2, c2), use_of(k1, "x"), use_of(k2, "y")))
             add("f2_%s%s" % (k1, k2), "F2 iterator view vs entry view", body("A"), pair_expect(k1, k2), "iterator view %s and entry view %s of A" % (k1, k2))
             add("f2_%s%s_twin" % (k1, k2), "F2 twin", body("B"), "accept", "entry view on B")
+    # the same conflict through every other way of pairing iterated views with entry views
+    for k1 in ks:
+        for k2 in ks:
+            for ctx in ("par_query", "run_system", "run_par_system", "schedule_seq", "schedule_par"):
+                def body(c2):
+                    if ctx == "par_query":
+                        return ("pub fn f(world: &mut World<Reg>, id: entity::Identifier) { let res = world.par_query(Query::<Views!(%s), filter::None, Views!(), Views!(%s)>::new()); let mut en = res.entries; "
+                                "if let Some(mut e) = en.entry(id) { if let Some(result!(y)) = e.query(Query::<Views!(%s)>::new()) { %s } } res.iter.for_each(|result!(x)| { %s }); }"
+                                % (vt(k1, "A"), vt(k2, c2), vt(k2, c2), use_of(k2, "y"), use_of(k1, "x")))
+                    par = ctx in ("run_par_system", "schedule_par")
+                    trait, itb = ("ParSystem", "ParallelIterator") if par else ("System", "Iterator")
+                    sysdef = ("pub struct S; impl %s for S { type Views<'a> = Views!(%s); type Filter = filter::None; type ResourceViews<'a> = Views!(); type EntryViews<'a> = Views!(%s);\n"
+                              "  fn run<'a, R, Q, I, E>(&mut self, qr: Result<'a, R, Q, I, Self::ResourceViews<'a>, Self::EntryViews<'a>, E>) where R: registry::ContainsViews<'a, Self::EntryViews<'a>, E>, I: %s<Item = Self::Views<'a>> { } }\n"
+                              % (trait, vt(k1, "A", "'a"), vt(k2, c2, "'a"), itb))
+                    if ctx == "run_system":
+                        return sysdef + "pub fn f(world: &mut World<Reg>) { world.run_system(&mut S); }"
+                    if ctx == "run_par_system":
+                        return sysdef + "pub fn f(world: &mut World<Reg>) { world.run_par_system(&mut S); }"
+                    return sysdef + "pub fn f(world: &mut World<Reg>) { let mut s = schedule!(%s(S)); world.run_schedule(&mut s); }" % ("task::ParSystem" if par else "task::System")
+                add("f2_%s_%s%s" % (ctx, k1, k2), "F2 iterator view vs entry view (%s)" % ctx, body("A"), pair_expect(k1, k2), "views %s and entry view %s of A through %s" % (k1, k2, ctx))
+                add("f2_%s_%s%s_twin" % (ctx, k1, k2), "F2 twin (%s)" % ctx, body("B"), "accept", "entry view on B")
     # ---------------- F3: two entry views of the same component
     for k1 in ks:
         for k2 in ks:
